@@ -8,7 +8,9 @@ import random
 from . import lang, rx2smt as R
 from .common import native, SEED
 
-ATOMS = ["a", "b", "0", "1", "-", ":", " ", "_", r"\.", r"\d", r"\w", r"\s", "[ab]", "[0-4]", "[^a]", "[a-c1]", r"[\d_]", "."]
+ATOMS = ["a", "b", "0", "1", "-", ":", " ", "_", r"\.", r"\d", r"\w", r"\s", "[ab]", "[0-4]", "[^a]", "[a-c1]", r"[\d_]", ".",
+         r"[\]\-^]", r"[^\d]", "é", r"\/", r"\-", "(?i:a)", "(?i:[a-b]1)", r"\D", r"\W", r"\S", r"[^\w:]", "\n", r"[\n ]", "A", r"[A-Ca]",
+         r"\+", r"\$", r"\^", r"[.]", r"[a\\]"]
 ZERO = [r"\b", r"\B", "^", "$", r"\A", r"\Z", "(?=a)", "(?!a)", "(?=[0-9])", r"(?!\w)", "(?<=a)", "(?<!a)", r"(?<=\d)", r"(?<![a-c])", "(?<=ab)",
         r"(?<!:)"]
 QUANT = ["?", "*", "+", "??", "*?", "+?", "{2}", "{1,2}", "{0,2}", "{2,}", "{1,3}?"]
